@@ -8,6 +8,7 @@ param = import_param()
 logging.getLogger("param").setLevel(logging.CRITICAL)
 
 OBJ = {i: "o%d" % i for i in range(1, 9)}
+OBJ[3] = None          # one of the objects is None
 KEY = {i: "k%d" % i for i in range(1, 9)}
 ROBJ = {v: k for k, v in OBJ.items()}
 RKEY = {v: k for k, v in KEY.items()}
@@ -85,7 +86,7 @@ class System:
             # alternate between the mapping form and the pairs form
             r = o.update(**kw) if not pos else o.update(dict(pos) if len(pos) != 1 else pos, **kw)
         elif n == "popkeydefault":
-            r = o.pop(KEY[a["k"]], OBJ[8])
+            r = o.pop(KEY[a["k"]], OBJ[a["x"]])
         elif n == "popkey":
             r = o.pop(KEY[a["k"]])
         elif n == "replace":
@@ -112,7 +113,9 @@ class System:
                 return 0
         else:
             raise ValueError(n)
-        return 0 if r is None else ROBJ.get(r, ("?", repr(r)))
+        if n in ("popindex", "poplast", "popkey", "popkeydefault", "popvia"):
+            return ROBJ.get(r, ("?", repr(r)))       # (the object handed back may be None: it is one of the objects)
+        return 0 if r is None else ("?", repr(r))
 
     def obs(self):
         p = self.sel
